@@ -25,6 +25,12 @@ fn build_doc_layout(table: &Table, crlf: bool, comments: bool, spread: bool) -> 
 /// `indent`: the module body, END included, is indented by two spaces (as inside an asn1! invocation): no line after
 /// the header starts in column 1
 fn build_doc_indented(table: &Table, crlf: bool, comments: bool, spread: bool, indent: bool) -> Doc {
+    build_doc_wide(table, crlf, comments, spread, indent, false)
+}
+
+/// `wide`: the comments contain characters of two, three and four bytes (ErrorPos.tla symbol "w": offsets are bytes)
+fn build_doc_wide(table: &Table, crlf: bool, comments: bool, spread: bool, indent: bool, wide: bool) -> Doc {
+    let w = if wide { " µm © – 語 😀" } else { "" };
     let nl = if crlf { "\r\n" } else { "\n" };
     let ind = if indent { "  " } else { "" };
     let mut text = String::new();
@@ -37,11 +43,11 @@ fn build_doc_indented(table: &Table, crlf: bool, comments: bool, spread: bool, i
         }
         for (i, d) in table.defs().iter().filter(|d| d.m == m).enumerate() {
             if comments && i % 2 == 0 {
-                text.push_str(&format!("-- definition {i}{nl}"));
+                text.push_str(&format!("-- definition {i}{w}{nl}"));
             }
             if comments && i % 3 == 1 {
                 // a longer run of comment and blank lines between two assignments
-                text.push_str(&format!("-- a note that goes on{nl}-- for several lines{nl}{nl}--{nl}-- and on{nl}{nl}-- until here{nl}"));
+                text.push_str(&format!("-- a note that goes on{w}{nl}-- for several lines{nl}{nl}--{nl}-- and on{w}{nl}{nl}-- until here{nl}"));
             }
             let mut t = table.def_text(d.idx);
             if spread {
@@ -55,6 +61,7 @@ fn build_doc_indented(table: &Table, crlf: bool, comments: bool, spread: bool, i
             spans.push((start, text.len()));
             if comments && i % 3 == 1 {
                 text.push_str(" -- trailing comment");
+                text.push_str(w);
             }
             text.push_str(nl);
         }
@@ -103,7 +110,8 @@ fn one(ci: usize, plan: &Value, di: usize, table: &Table, dir: &str) -> Value {
     let crlf = plan["crlf"].as_bool().unwrap();
     let file = plan["file"].as_bool().unwrap();
     // every fifth document has its whole body indented
-    let doc = build_doc_indented(table, crlf, (ci + di) % 2 == 0, (ci + di) % 3 == 2, (ci + di) % 5 == 4);
+    // every second document with comments has multi-byte characters in them
+    let doc = build_doc_wide(table, crlf, (ci + di) % 2 == 0, (ci + di) % 3 == 2, (ci + di) % 5 == 4, (ci + di) % 4 == 0);
     let _ = build_doc_layout;
     let mut a = plan["a"].as_u64().unwrap() as usize % doc.spans.len();
     let anchor = plan["anchor"].as_str().unwrap_or("nth");
